@@ -53,7 +53,16 @@ ALL_STS = {'provides': ['ALL', 'NONE'], 'requires': ['ALL', 'NONE'], 'fac': 'cre
 
 
 def judge(case):
-    return globals()['judge_' + case['kind']](case)
+    res = globals()['judge_' + case['kind']](case)
+    if case.get('lab'):
+        from .. import lab  # pylint: disable=import-outside-toplevel
+        model = model_a(case) if case['kind'] == 'a' else model_b(case)
+        cfg = {'provides': ['NONE', 'ALL'], 'requires': ['NONE', 'ALL'], 'fac': 'create', 'prefix': '',
+               'suffix': 'Shell', 'sem': {'p': 'MTS'}, 'mc': None}
+        out = lab.run_case({'id': 'c07', 'model': model, 'cfg': cfg})
+        if out.get('generation_error') or not out['compiled']:
+            res.append(('compiled-confirmation-failed:does-not-compile', out.get('compile_error', '')[:300]))
+    return res
 
 
 # ---- (a) port types -------------------------------------------------------------------------
@@ -283,9 +292,54 @@ def work(job):
     return part
 
 
+def lab_confirm(job):
+    """Thorough: compile + run the uniquely resolving cases of kinds a/b in the C++ lab (distinct,
+    non-convertible mock types per declaration: a wrong pick is a compile error or a routing failure)."""
+    from .. import lab  # pylint: disable=import-outside-toplevel
+    idx, nslots = job
+    part = Partial()
+    k = 0
+    for case in cases():
+        if case['kind'] not in ('a', 'b') or case.get('mc') or case.get('sem') == 'STS':
+            continue
+        model = model_a(case) if case['kind'] == 'a' else model_b(case)
+        scope = case['scope'] if case['kind'] == 'a' else case['scope'] + ['I']
+        hits = M.lookup(M.declarations(model['doc']), case['spell'], scope)
+        want_kind = 'interface' if case['kind'] == 'a' else 'extern'
+        if len(hits) != 1 or hits[0].kind != want_kind:
+            continue
+        k += 1
+        if k % nslots != idx:
+            continue
+        direction = case.get('dir', 'provides')
+        cfg = {'provides': ['NONE', 'ALL'], 'requires': ['NONE', 'ALL'], 'fac': 'create', 'prefix': '',
+               'suffix': 'Shell', 'sem': {'p': 'MTS'}, 'mc': None}
+        res = lab.run_case({'id': 'c07', 'model': model, 'cfg': cfg})
+        part.evaluations += 1
+        part.states += 1
+        part.transitions += 1
+        part.nontrivial += 1
+        part.extra['compiled_confirmations'] += 1
+        rcase = dict(case, lab=True)
+        if res.get('generation_error') or not res['compiled']:
+            part.outcome('lab:compile-error')
+            part.violation('compiled-confirmation-failed:does-not-compile',
+                           f'{case}: {res.get("generation_error") or res["compile_error"][:400]}', rcase)
+        else:
+            bad = [ln for ln in res['lines'] if ln['prop'] == 'C01' and not ln['ok']]
+            part.outcome('lab:ok' if not bad and res['exit'] == 0 else 'lab:failed')
+            if bad or res['exit'] != 0:
+                part.violation('compiled-confirmation-failed:routing',
+                               f'{case}: exit {res["exit"]} {[b["subject"] for b in bad][:3]}', rcase)
+    return part
+
+
 def explore(ctx):
     for part in pmap(work, [(i, 32) for i in range(32)]):
         ctx.merge(part)
+    if ctx.thorough:
+        for part in pmap(lab_confirm, [(i, 48) for i in range(48)]):
+            ctx.merge(part)
     ctx.rule = ('(a) 3^4 placements of X x 3 component scopes x 5 spellings x {provides/MTS, requires/STS}; (b) 3^4 '
                 'placements of extern T x 3 interface scopes x 5 spellings x {provides, requires, multi-client, STS}; '
                 '(c) 3^5 placements of enum R x 5 spellings; (d) 2^4 component placements x 5 requested FQNs; '
